@@ -191,7 +191,7 @@ Proof.
   pose proof (inv_delay _ _ _ I) as Dl.
   assert (Hne : q_empty q = false).
   { destruct (q_empty q) eqn:E; [|reflexivity]. specialize (Em eq_refl).
-    apply (next_key_empty all_rep) in Em. rewrite Em in Hk. discriminate. }
+    apply (next_key_empty all_rep eq_refl) in Em. rewrite Em in Hk. discriminate. }
   assert (Hst : map stat (upd_entry (q_data q) key (add_trials (-1))) = map stat es).
   { rewrite map_upd_entry; auto. apply (inv_stat _ _ _ I). }
   destruct (entry_facts p es Hwf _ _ _ Hst He) as (L1 & L2 & dl' & N1 & N2 & N3 & N4).
@@ -255,7 +255,7 @@ Proof.
   { destruct (kind_of q key); [destruct (s >? len - pos)|]; discriminate. }
   destruct (q_delay q >? 0); [discriminate|].
   destruct (next_trial all_rep q) eqn:En; try discriminate.
-  split; [reflexivity|]. now apply (next_trial_empty all_rep).
+  split; [reflexivity|]. now apply (next_trial_empty all_rep eq_refl).
 Qed.
 
 Lemma tloop f : forall q added s q2 o e, Inv q -> TI q added -> 0 <= s ->
